@@ -13,7 +13,8 @@ CFGS = {("C04", "quick"): ["MC_Sandbox_modes_q.cfg", "MC_Sandbox_modes2_q.cfg"],
         ("C15", "thorough"): ["MC_Sandbox_ledger_q.cfg", "MC_Sandbox_inputs_q.cfg", "MC_Sandbox_ledger_t.cfg"]}
 MUTANTS = {"C04": [("MUT_Sandbox_fragile_capture.cfg", "Contained")],
            "C05": [("MUT_Sandbox_no_base_handler.cfg", "Restored"), ("MUT_Sandbox_tracer_conditional_restore.cfg", "Restored"),
-                   ("MUT_Sandbox_tracer_not_reentrant.cfg", "Restored")],
+                   ("MUT_Sandbox_tracer_not_reentrant.cfg", "Restored"),
+                   ("MUT_Sandbox_shared_sleep_patcher.cfg", "Restored")],
            "C15": [("MUT_Sandbox_phantom_line.cfg", "OutputLedger"), ("MUT_Sandbox_lifo_inputs.cfg", "InputFifo"),
                    ("MUT_Sandbox_falsy_inputs_ignored.cfg", "InputFifo")]}
 
